@@ -26,7 +26,8 @@ def run_flatten_case(p):
     dom = O.make_domain(rng, p.get('n', 3), falsy=p.get('falsy', False))
     cond = O.gen_cond(rng, 1, 1, falsy=False, vocab=('cmp', 'name'), neg=False)
     try:
-        got, want, q = O.run_flatten(dom, p.get('with_cond', False), p.get('select_parent', True), cond)
+        got, want, q = O.run_flatten(dom, p.get('with_cond', False), p.get('select_parent', True), cond,
+                                     element_first=p.get('element_first', False))
         if got != want:
             return {'query': f"an(set_of([{'x, ' if p.get('select_parent', True) else ''}flatten(x.tags)]"
                              f"{', ' + repr(cond) if p.get('with_cond') else ''}))",
@@ -102,7 +103,7 @@ def run_mode_case(p):
     try:
         for step in range(p.get('steps', 10)):
             # one live iterator per query at a time: interleaved iterators of one query share its evaluation state
-            ops = ['enter_q', 'enter_r'] + ([] if iters else ['new_iter', 'new_iter'])
+            ops = ['enter_q', 'enter_r', 'enter_expr', 'construct'] + ([] if iters else ['new_iter', 'new_iter'])
             if blocks:
                 ops += ['leave', 'leave_exc']
             if iters:
@@ -114,6 +115,18 @@ def run_mode_case(p):
                 cm.__enter__()
                 blocks.append(cm)
                 ref.append(('EQLMode.Query' if op == 'enter_q' else 'EQLMode.Rule', ref[-1][1]))
+            elif op == 'construct':
+                # calling a @symbol class builds a real instance exactly when symbolic mode is off, whatever expression
+                # blocks are open
+                made = O.POther('made%d' % step, step)
+                if isinstance(made, O.POther) != (ref[-1][0] == 'None'):
+                    return {'log': log, 'what': 'construction of a @symbol class does not follow the symbolic mode',
+                            'mode': ref[-1][0], 'built': type(made).__name__, 'signature_kind': 'construct'}
+            elif op == 'enter_expr':
+                # `with q:` - the expression-context stack grows by one entry, the mode is untouched
+                q.__enter__()
+                blocks.append(q)
+                ref.append((ref[-1][0], ref[-1][1] + 1))
             elif op == 'leave':
                 blocks.pop().__exit__(None, None, None)
                 ref.pop()
@@ -188,9 +201,17 @@ def run_subquery_case(p):
         with symbolic_mode():
             x = let(type_=O.Item, domain=d0)
             y = let(type_=O.Item, domain=d1)
-            sub = an(entity(x, O.build(c0, [x])))
-            join = O.build(c1, [x, y])
-            cond = and_(sub, join) if conn == 'and' else or_(sub, join)
+            if p.get('correlated'):
+                # the sub-query's own condition mentions the outer variable y; it stands after conditions on x and y
+                # (so the enclosing conjunction sees it for several y per x and for several x per y)
+                sub = an(entity(x, O.build(c1, [x, y])))
+                pre = O.build(c0, [x])
+                cy = O.build(('cmp', 'ne', ('attr', 1, 'name'), ('lit', 'zz')), [x, y])
+                cond = and_(pre, cy, sub) if conn == 'and' else and_(cy, or_(pre, sub))
+            else:
+                sub = an(entity(x, O.build(c0, [x])))
+                join = O.build(c1, [x, y])
+                cond = and_(sub, join) if conn == 'and' else or_(sub, join)
             q = an(set_of([x, y], cond))
         got = sorted((id(r[x]), id(r[y])) for r in q.evaluate())
         def sat(a, b):
